@@ -44,6 +44,7 @@ fn get_server_values_impl(socket: &mut UdpSocket) -> GDResult<HashMap<String, St
     let mut received_query_id: Option<usize> = None;
     let mut parts: Vec<usize> = Vec::new();
     let mut is_finished = false;
+    let mut expected_parts: Option<usize> = None;
 
     let mut server_values = HashMap::new();
 
@@ -69,11 +70,12 @@ fn get_server_values_impl(socket: &mut UdpSocket) -> GDResult<HashMap<String, St
             server_values.insert(key, value);
         }
 
-        is_finished = server_values.remove("final").is_some();
+        let has_final = server_values.remove("final").is_some();
 
         let query_data = server_values.get("queryid");
 
         let mut part = parts.len(); // if the part number isn't provided, it's value is the parts length
+        let mut is_part_numbered = false;
         let mut query_id = None;
         if let Some(qid) = query_data {
             let split: Vec<&str> = qid.split('.').collect();
@@ -81,7 +83,10 @@ fn get_server_values_impl(socket: &mut UdpSocket) -> GDResult<HashMap<String, St
             query_id = Some(split[0].parse().map_err(|e| TypeParse.context(e))?);
             match split.len() {
                 1 => (),
-                2 => part = split[1].parse().map_err(|e| TypeParse.context(e))?,
+                2 => {
+                    part = split[1].parse().map_err(|e| TypeParse.context(e))?;
+                    is_part_numbered = true;
+                }
                 _ => Err(GDErrorKind::PacketBad)?, /* the queryid can't be splitted in more than 2
                                                     * elements */
             };
@@ -99,6 +104,17 @@ fn get_server_values_impl(socket: &mut UdpSocket) -> GDResult<HashMap<String, St
             true => Err(GDErrorKind::PacketBad)?,
             false => parts.push(part),
         }
+
+        // The part with the final marker is the last one (they are numbered from 1), but it is not
+        // necessarily the last to arrive
+        if has_final {
+            expected_parts = Some(match is_part_numbered {
+                true => part,
+                false => parts.len(),
+            });
+        }
+
+        is_finished = expected_parts.is_some_and(|expected| parts.len() >= expected);
     }
 
     Ok(server_values)
